@@ -77,6 +77,18 @@ var programs = []string{
 	"<%= \"abc\" ~= \"b\" %>|<%= \"abc\" ~= \"^z\" %>",
 	"<%= pluralize(\"box\") %>|<%= camelize(\"a_b\") %>|<%= pathFor(\"/x\") %>",
 	"<%= toJSON(xs) %>|<%= debug(x) %>",
+	"<%= tag() %>|<%= tag({id: x}) %>",
+}
+
+// tag writes defaults into the options it was given, as tag helpers do; the options
+// of a call belong to that call
+func tag(opts map[string]interface{}) string {
+	n := len(opts)
+	opts["class"] = "btn"
+	if n == 0 {
+		return "tag0"
+	}
+	return "tagN"
 }
 
 func fill(ctx *plush.Context, x, y int) {
@@ -84,6 +96,7 @@ func fill(ctx *plush.Context, x, y int) {
 	ctx.Set("y", y)
 	ctx.Set("xs", []int{x, y})
 	ctx.Set("blk", blk)
+	ctx.Set("tag", tag)
 	ctx.Set("partialFeeder", func(string) (string, error) { return "P<%= v %>", nil })
 }
 
